@@ -250,4 +250,51 @@ def search(res, tier, boost=False):
                             res.violation('C12:not-invariant:reflect:one-operator-sweep', dict(curve=cname, pw_exact=pw, test=describe(te), trial=describe(tr),
                                           base=float(v), moved=float(M[(i4, j4)]), scaled_error=err))
             res.bump('sweep_entries', len(M))
+    # closed curve with exactly THREE panels per slab (the minimum MeshParametrized accepts without refining): the first
+    # and the last panel together cover more than half of the curve; every ordered pair of panels against its image
+    # under the quarter turns (and the third turn for equal thirds) that keep both panels off the seam
+    import math as _m
+    from src.mesh import MeshParametrized
+    gam = make_curve('Circle')
+    L = float(gam.gamma_length)
+    def pt(k):
+        # parameter value k/12 of the way round; one formula for mesh and images, so that shared end points are bit-identical
+        return L if k == 12 else (0.0 if k == 0 else L * k / 12)
+    for ks in ([0, 6, 9, 12], [0, 4, 8, 12], [0, 3, 6, 12]):
+        grid = [pt(k) for k in ks]
+        with contextlib.redirect_stdout(io.StringIO()):
+            mesh3 = MeshParametrized(gam, initial_space_mesh=list(grid), initial_time_mesh=[0., 0.5, 1.0])
+        ops3 = RealOps(gam, mesh3)
+        el3 = list(mesh3.leaf_elements)
+        if len(el3) != 6:
+            res.bump('three_panel_mesh_was_refined_by_the_constructor')
+            continue
+        kof = {grid[i]: ks[i] for i in range(4)}
+        shifts = [3, 6, 9] + ([4, 8] if ks[1] == 4 else [])
+        for te in el3:
+            for tr in el3:
+                if te.time_interval[1] <= tr.time_interval[0]:
+                    continue
+                base = ops3.SL[False].bilform(tr, te)
+                sc = ops3.scale(te, tr)
+                for sft in shifts:
+                    def mv(iv):
+                        a_, b_ = (kof[iv[0]] + sft) % 12, (kof[iv[1]] + sft) % 12
+                        if b_ == 0:
+                            b_ = 12
+                        return (pt(a_), pt(b_)) if a_ < b_ else None      # None: the image would straddle the seam
+                    xt, xr = mv(te.space_interval), mv(tr.space_interval)
+                    if xt is None or xr is None:
+                        continue
+                    te2, tr2 = Stub(te.time_interval, xt, gam.pw_gamma[0]), Stub(tr.time_interval, xr, gam.pw_gamma[0])
+                    ops3.SL[False]._init_elems([te2, tr2])
+                    moved = ops3.SL[False].bilform(tr2, te2)
+                    err = abs(moved - base) / sc
+                    worst = max(worst, err)
+                    res.count(('three-panels', tuple(ks), repr(te), repr(tr), sft), True)
+                    if err > 1e-7:
+                        res.violation('C12:not-invariant:rotate:three-panels-per-slab', dict(curve='Circle', initial_space_mesh=list(grid), rotation_twelfths=sft,
+                                      test=describe(te), trial=describe(tr), moved_test=describe(te2), moved_trial=describe(tr2),
+                                      base=float(base), moved=float(moved), scaled_error=err))
+                        break
     res.notes['worst_scaled_error'] = worst
